@@ -1832,6 +1832,17 @@ func opCtorMapping(a []string) (string, []Fail) {
 		pairs = append(pairs, [2]string{big300, "v"})
 	case "value-over-255":
 		pairs = append(pairs, [2]string{"k", big300})
+	case "total-just-over-65535", "total-exactly-65535":
+		// 127 pairs of 255-byte key and 255-byte value (514 bytes each on the wire) + one pair that brings the body to
+		// exactly 65535 (the last admissible size) resp. 65537 bytes
+		for i := 0; i < 127; i++ {
+			pairs = append(pairs, [2]string{fmt.Sprintf("%03d%s", i, strings.Repeat("k", 252)), strings.Repeat("v", 255)})
+		}
+		rest := 65535 - 127*514 - 4 // key+value bytes of the last pair for a body of exactly 65535
+		if variant == "total-just-over-65535" {
+			rest += 2
+		}
+		pairs = append(pairs, [2]string{"zzz" + strings.Repeat("k", 97), strings.Repeat("v", rest-100)})
 	case "total-over-65535":
 		for i := 0; i < 140; i++ {
 			pairs = append(pairs, [2]string{fmt.Sprintf("%03d%s", i, strings.Repeat("k", 230)), strings.Repeat("v", 240)})
@@ -1877,10 +1888,13 @@ func opCtorMapping(a []string) (string, []Fail) {
 		c.panicked(variant, p)
 		return c.line(), c.fails
 	}
+	if variant == "total-exactly-65535" {
+		variant = "ok"
+	}
 	if variant != "ok" {
 		haveVal := false
 		var verr error
-		if variant != "total-over-65535" { // a mapping value holding a malformed (over-long) string
+		if variant != "total-over-65535" && variant != "total-just-over-65535" { // a mapping value holding a malformed (over-long) string
 			bad := data.I2PString(cat([]byte{255}, []byte(big300)))
 			k, _ := data.ToI2PString("k")
 			pair := [2]data.I2PString{k, bad}
